@@ -212,22 +212,22 @@ def _guard_star(packed: tuple[str, tuple]) -> tuple[str, Any]:
 # shrinking (independent of Hypothesis, works for enumerated and fuzzed cases too)
 
 
-FROZEN_KEYS = ("version", "versions", "ending", "kind", "mode", "tz", "pair", "transport")
-
-
-def _paths(node: Any, deletable: tuple[str, ...], prefix: tuple = (), under: str | None = None):
+def _paths(node: Any, deletable: tuple[str, ...], strkeys: tuple[str, ...], prefix: tuple = (), under: str | None = None, in_op: bool = False):
+    """Shrink points: lists under a deletable key; strings inside their items (not the op name) or under strkeys."""
     if isinstance(node, dict):
         for key, val in node.items():
-            if key in FROZEN_KEYS:
-                continue
-            yield from _paths(val, deletable, prefix + (key,), key)
+            yield from _paths(val, deletable, strkeys, prefix + (key,), key, in_op)
     elif isinstance(node, list):
-        if under in deletable:
+        top = under in deletable and not in_op
+        if top:
             yield ("list", prefix)
         for idx, val in enumerate(node):
-            yield from _paths(val, deletable, prefix + (idx,), under if under in deletable else None)
+            if in_op and idx == 0 and isinstance(val, str):
+                continue  # op name
+            yield from _paths(val, deletable, strkeys, prefix + (idx,), under, in_op or top)
     elif isinstance(node, str):
-        yield ("str", prefix)
+        if in_op or under in strkeys:
+            yield ("str", prefix)
 
 
 def _get(node: Any, path: tuple) -> Any:
@@ -250,6 +250,7 @@ def _set(node: Any, path: tuple, value: Any) -> Any:
 def shrink_case(prop: Any, case: Any, sig: str, budget: int = 300, seconds: float = 60.0) -> Any:
     """Greedy structural minimisation keeping the same failure signature."""
     deletable = tuple(getattr(prop, "DELETABLE", ("ops",)))
+    strkeys = tuple(getattr(prop, "SHRINK_STRINGS", ()))
     start = time.monotonic()
     spent = 0
 
@@ -269,7 +270,7 @@ def shrink_case(prop: Any, case: Any, sig: str, budget: int = 300, seconds: floa
     progress = True
     while progress and spent < budget and time.monotonic() - start < seconds:
         progress = False
-        for kind, path in list(_paths(case, deletable)):
+        for kind, path in list(_paths(case, deletable, strkeys)):
             if spent >= budget or time.monotonic() - start >= seconds:
                 break
             try:
@@ -385,6 +386,7 @@ def run_check(prop_id: str, tier: str) -> int:
                 "found_with": {"seed": seed, "tier": tier, "count": info["count"]},
             },
         )
+        info["detail"] = detail
         violations.append((sig, replay))
 
     wall = time.monotonic() - started
